@@ -366,6 +366,83 @@ func c13(r *Run) {
 		r.ob("C13.R4:onQuit-is-quit", "the server's onQuit is the event loop's quit", serve, nil, bound, "newServer(ln, opts, evl.quit)", false)
 	}
 
+	// ---- R6 the teardown chain and the control path the server relies on ---------------------------------
+	// the untrack callback and the finalizer are nodes of the close-callback chain: the walk reaches them whatever the
+	// user's callbacks return (C05.R5/R11)
+	r.borrow([]string{"C05.R5:walk-is-complete", "C05.R11:runner-completes", "C05.R5:lifo-walk"}, "C05.R", "C13.R6.teardown.", func() { c05(r) })
+	{
+		// every control request other than a repeated detach reaches the poller: the EMFILE back-off re-arms the listener
+		// through FDOperator.Control and cannot notice a refusal
+		fc := w.MustFn("(*FDOperator).Control")
+		evDetach := w.ConstInt("PollDetach")
+		isPollCtl := func(ins ssa.Instruction) bool {
+			cc := callCommon(ins)
+			return cc != nil && cc.IsInvoke() && cc.Method.Name() == "Control"
+		}
+		evIsDetach := func(v ssa.Value) (bool, bool) {
+			b, ok := v.(*ssa.BinOp)
+			if !ok || (b.Op != token.EQL && b.Op != token.NEQ) {
+				return false, false
+			}
+			x, y := b.X, b.Y
+			if _, isP := y.(*ssa.Parameter); isP {
+				x, y = y, x
+			}
+			if _, isP := x.(*ssa.Parameter); isP && isConstEq(evDetach)(y) {
+				return b.Op == token.EQL, true
+			}
+			return false, false
+		}
+		ss := &Search{Fn: fc, Stop: isPollCtl, CutEdge: cutOn(evIsDetach)}
+		wit := ss.Find([]Start{Entry(fc)}, nil, true)
+		r.Visited += ss.Visited
+		r.obW("C13.R6:control-reaches-poller", "FDOperator.Control hands every request to the poller except on the event==PollDetach branch (the once-guard): re-arming a detached listener after EMFILE, whose result nobody looks at, is never refused silently", fc, nil, wit, "every path that is not on the PollDetach branch invokes poll.Control")
+	}
+	{
+		// the server handle: set by Serve to the server it started, taken (set to nil) only by the Shutdown that then closes it
+		srvClose := w.MustFn("(*server).Close")
+		newSrv := w.MustFn("newServer")
+		n := 0
+		for _, fn := range w.Funcs {
+			for _, i := range allIns(fn) {
+				st, ok := i.(*ssa.Store)
+				if !ok || !isStoreToField(i, "eventLoop", "svr") {
+					continue
+				}
+				n++
+				if c, isC := st.Val.(*ssa.Call); isC && c.Call.StaticCallee() == newSrv {
+					r.ob("C13.R6:server-handle:"+siteKey(w, i), "the event loop's server handle is set to the server Serve has just created", fn, i, true, "evl.svr = newServer(...)", false)
+					continue
+				}
+				okv := false
+				detail := "stores " + stablePath(st.Val)
+				if isNilConst(st.Val) {
+					// taken by the function that closes what it took
+					forEachIns(fn, func(j ssa.Instruction) {
+						if !isCall(j, srvClose) {
+							return
+						}
+						recv := callCommon(j).Args[0]
+						if _, isLoad := loadOfField(recv, "eventLoop", "svr"); !isLoad {
+							return
+						}
+						ld := recv.(ssa.Instruction)
+						s1 := &Search{Fn: fn, Stop: isIns(ld)}
+						if s1.Find([]Start{Entry(fn)}, isIns(i), false) == nil {
+							okv = true
+							detail = "the handle is loaded before it is cleared and that value is closed"
+						}
+						r.Visited += s1.Visited
+					})
+				}
+				r.ob("C13.R6:server-handle:"+siteKey(w, i), "the server handle is cleared only by the Shutdown that took it (loaded it first) and closes it: once Serve has run, some Shutdown call finds the server - a handle cleared elsewhere makes Shutdown return nil with connections still open", fn, i, okv, detail, true)
+			}
+		}
+		if n < 2 {
+			r.absentf(" C13: only %d stores of eventLoop.svr", n)
+		}
+	}
+
 	// ---- R5 EMFILE back-off re-arms --------------------------------------------------------------------
 	{
 		onRead := w.MustFn("(*server).OnRead")
